@@ -142,6 +142,12 @@ theorem assignValues_pre {st : KState} (hp : Pre st) (v? : Option (List Rat)) (a
 
 theorem step_inv {st st' : KState} {op : KOp} (hi : Inv st) (h : step st op = .ok st') : Inv st' := by
   cases op with
+  | paramsDefaultDofs => simp [step] at h
+  | paramsKernelDof =>
+    simp only [step] at h
+    split at h
+    · cases h
+    · injection h with h; subst h; exact hi
   | updateKernel k => exact setKernel_inv hi h
   | valuesParam ps =>
     refine refresh_inv ⟨?_, ?_⟩ h
@@ -382,6 +388,12 @@ theorem setKernel_distinct {st st' : KState} {k : Nat} (hd : DistinctOk st) (h :
 
 theorem step_distinct {st st' : KState} {op : KOp} (hd : DistinctOk st) (h : step st op = .ok st') : DistinctOk st' := by
   cases op with
+  | paramsDefaultDofs => simp [step] at h
+  | paramsKernelDof =>
+    simp only [step] at h
+    split at h
+    · cases h
+    · injection h with h; subst h; exact hd
   | updateKernel k => exact setKernel_distinct hd h
   | valuesParam ps => exact refresh_distinct (by intro key hk; exact hd key hk) h
   | update k? s? v? append =>
